@@ -26,7 +26,12 @@ const TYPES: [(&str, &[&str]); 5] = [
 const SHAPES: [&str; 9] = ["INT", "DINT", "BOOL", "TIME", "STRING", "ARRAY", "STRUCT", "ENUM", "REAL"];
 /// (type text, initialiser, bump statement) of a counter of the given shape
 fn shape_decl(shape: &str, n: &str) -> (String, String, String) {
+    // every other counter is initialised with an UNTYPED literal (its natural type differs from the
+    // declared one: the initial value must be converted at start-up and again at every restart)
+    let untyped = n.bytes().last().map_or(false, |b| b % 2 == 0) && !n.starts_with("cnt");
     match shape {
+        "INT" if untyped => ("INT".into(), " := 3".into(), format!("{n} := {n} + INT#1;")),
+        "REAL" if untyped => ("REAL".into(), " := 1.5".into(), format!("{n} := {n} + REAL#1.0;")),
         "INT" => ("INT".into(), " := INT#3".into(), format!("{n} := {n} + INT#1;")),
         "DINT" => ("DINT".into(), " := DINT#100000".into(), format!("{n} := {n} + DINT#1;")),
         "BOOL" => ("BOOL".into(), " := FALSE".into(), format!("{n} := NOT {n};")),
